@@ -21,7 +21,6 @@ func doSelftest(args []string) int {
 	if pi == nil {
 		harnessFail("unknown property")
 	}
-	instrBin = pi.Instr
 	runs := 40
 	if len(args) > 1 {
 		fmt.Sscan(args[1], &runs)
@@ -41,7 +40,7 @@ func doSelftest(args []string) int {
 			}
 			sub := filepath.Join(scratch, fmt.Sprintf("g%s-%d", gmp, rep))
 			_ = os.MkdirAll(sub, 0o755)
-			br, err := runJob(sub, 0, job, pi.Race, pi.perRun())
+			br, err := runJob(sub, 0, job, pi, pi.perRun())
 			if err != nil {
 				harnessFail("%v", err)
 			}
